@@ -1,7 +1,7 @@
 (* Correspondence for C04, positional join engine: the transcription (Rep/RelJoin.v) is run on the
    stored layouts the harness read off the implementation's operands, and its result is compared
    with what the implementation returned for those very operands. *)
-From Arrai Require Import Base.Val Spec.SetAlg Eval.Interp Rep.RelJoin Check.EvalCheck.
+From Arrai Require Import Base.Val Spec.SetAlg Eval.Interp Rep.RelJoin Rep.GenJoin Check.EvalCheck.
 
 Record jcase := {
   j_id : Z; j_op : joinop; j_a : relation; j_b : relation;
@@ -78,3 +78,38 @@ Definition mode04 (k : jcase) : Z :=
   | _, _, _, _ => 9%Z
   end.
 Definition modes04 (l : list jcase) : list (Z * Z) := map (fun k => (j_id k, mode04 k)) l.
+
+(* ---------- the generic engine (Rep/GenJoin.v) on operands that are not both Relations ---------- *)
+
+Record gcase := { g_id : Z; g_op : joinop; g_a : val; g_b : val; g_obs : option val (* None: the implementation returned an error *) }.
+
+(* 0 agree; 1 the implementation's answer is not the specification join of the operands (property);
+   3 the transcription would hand a nil tuple to the set builder; 4 transcription and implementation differ *)
+Definition classifyG_raw (k : gcase) : Z :=
+  match norm (g_a k), norm (g_b k) with
+  | VSet la, VSet lb =>
+      let spec := join_data (g_op k) la lb in
+      let same := fun (r : res val) => match r, g_obs k with
+                                       | Ok v, Some o => veqb v (norm o)
+                                       | Err, None => true
+                                       | _, _ => false
+                                       end in
+      if negb (same spec) then 1%Z
+      else match generic_join (g_op k) la lb with
+           | None => 3%Z
+           | Some r => if same r then 0%Z else 4%Z
+           end
+  | _, _ => 0%Z
+  end.
+Definition classifyG (k : gcase) : Z :=
+  let c := classifyG_raw k in
+  if Z.eqb c 0 then 0%Z
+  else match norm (g_a k), norm (g_b k) with
+       | VSet la, VSet lb => match join_data (g_op k) la lb with
+                             | Ok spec => if has_collision spec || has_collision (g_a k) || has_collision (g_b k) then (100 + c)%Z else c
+                             | _ => c
+                             end
+       | _, _ => c
+       end.
+Definition reportG (l : list gcase) : list (Z * Z) :=
+  filter (fun p => negb (Z.eqb (snd p) 0)) (map (fun k => (g_id k, classifyG k)) l).
